@@ -24,7 +24,7 @@ REPO = os.environ.get("IMB_REPO", "/repo")
 BUILD = os.environ.get("IMB_VERIF_BUILD", os.path.join(VERIF, ".build"))
 COMPDB = os.path.join(BUILD, "lib", "compile_commands.json")
 GEN = os.path.join(BUILD, "gen")
-OUT_V = os.path.join(VERIF, "coq", "Gen", "GenLayout.v")
+OUT_V = os.path.join(os.environ.get("IMB_COQ_DIR") or os.path.join(VERIF, "coq"), "Gen", "GenLayout.v")
 OUT_H = os.path.join(GEN, "gen_layout.h")
 
 SCALARS = {"uint8_t", "uint16_t", "uint32_t", "uint64_t", "int8_t", "int16_t", "int32_t", "int64_t", "int",
